@@ -284,10 +284,20 @@ fn receive_path_case(t: &mut Tape, obs: &mut Obs) -> CaseResult {
             obs.label("damaged-frame-not-rejected-by-the-reference");
             return Ok(());
         }
+        // the whole damaged frame is pending: nothing may ever be delivered from it, however many
+        // polls the receive path takes to get rid of it (what it does with the bytes is C16's matter)
         phy.buf = m.clone();
-        let got = poll(&mut phy);
-        ensure!(got.is_empty(), "damaged-frame-delivers", "{} with byte {} replaced by 0x{:02x}, received in one piece, delivers {:?}", hex(&frame), pos, val, got);
-        ensure!(phy.buf.is_empty(), "damaged-frame-not-discarded", "{} with byte {} replaced by 0x{:02x}: {} bytes still pending after it was rejected", hex(&frame), pos, val, phy.buf.len());
+        let mut polls = 0u64;
+        loop {
+            let before = phy.buf.len();
+            let got = poll(&mut phy);
+            polls += 1;
+            ensure!(got.is_empty(), "damaged-frame-delivers", "{} with byte {} replaced by 0x{:02x}, received in one piece, delivers {:?} (poll {})", hex(&frame), pos, val, got, polls);
+            if phy.buf.is_empty() || phy.buf.len() == before || polls > m.len() as u64 + 2 {
+                break;
+            }
+        }
+        obs.count("polls", polls);
         obs.label("whole");
     } else {
         // in chunks with a poll after each: whatever is delivered must be what the frame format
@@ -325,7 +335,7 @@ fn receive_path_case(t: &mut Tape, obs: &mut Obs) -> CaseResult {
 pub fn property() -> Property {
     Property {
         id: "C10",
-        rule: "cases: byte strings fed to Telegram::deserialize (and DataTelegram::deserialize under its caller contract) and compared with a reference decoder written from the frame format: all strings of length <= 2, all 3-byte strings starting with a delimiter, SD2 headers 68 LE LEr x (all (LE,LEr) pairs x 16 fourth bytes quick / all 256^3 thorough) each with a well-formed body of the announced length, whole and truncated/extended; valid frames with every single-bit flip at every position and every single-byte substitution at generated positions; random and mutated strings up to 262 bytes with all their prefixes; (receive_path) valid data frames / SC with one substituted byte through ProfibusPhy::receive_telegram / receive_all_telegrams on a chunk PHY: received whole nothing is delivered and nothing stays pending, received in chunks every delivered telegram is what the reference decoder reads at the start of the pending bytes and never more is consumed than pending. Non-trivial = the input starts with a start delimiter and is at least 3 bytes long; distinct by content hash.",
+        rule: "cases: byte strings fed to Telegram::deserialize (and DataTelegram::deserialize under its caller contract) and compared with a reference decoder written from the frame format: all strings of length <= 2, all 3-byte strings starting with a delimiter, SD2 headers 68 LE LEr x (all (LE,LEr) pairs x 16 fourth bytes quick / all 256^3 thorough) each with a well-formed body of the announced length, whole and truncated/extended; valid frames with every single-bit flip at every position and every single-byte substitution at generated positions; random and mutated strings up to 262 bytes with all their prefixes; (receive_path) valid data frames / SC with one substituted byte through ProfibusPhy::receive_telegram / receive_all_telegrams on a chunk PHY: received whole nothing is ever delivered from it (polled until the receive path has got rid of it), received in chunks every delivered telegram is what the reference decoder reads at the start of the pending bytes and never more is consumed than pending. Non-trivial = the input starts with a start delimiter and is at least 3 bytes long; distinct by content hash.",
         assumptions: vec![
             "reference decoder (harness/src/refcodec.rs) is a faithful rendering of the acceptance conditions of the FDL frame format",
             "'asks for more data only for a proper prefix of a frame of the announced length' is read as: only while the input is shorter than the length the bytes present announce",
